@@ -31,6 +31,10 @@ func c15CaseAt(base uint64, chain []*vhdr.Header, subj, nw int, R uint64, forged
 	if failH > 0 {
 		g.failH[base+uint64(failH)] = true
 	}
+	if failH == -2 { // every intermediate is answered with ErrNotFound
+		g.nfAll = true
+		g.budget = 3000
+	}
 	s, _ := newSyncer(g, st, hsync.WithBlockTime(time.Second), hsync.WithTrustingPeriod(1000*time.Hour))
 	cand := chain[nw-1]
 	if forged {
@@ -44,7 +48,7 @@ func c15CaseAt(base uint64, chain []*vhdr.Header, subj, nw int, R uint64, forged
 		switch {
 		case errors.Is(err, errBudget):
 			res = "nonterminating"
-		case errors.Is(err, errGetter):
+		case errors.Is(err, errGetter), errors.Is(err, header.ErrNotFound) && !strings.Contains(err.Error(), "bifurcation: new head failed"):
 			res = "geterr"
 		case strings.Contains(err.Error(), "bifurcation: new head failed"):
 			res = "final"
@@ -58,6 +62,9 @@ func c15CaseAt(base uint64, chain []*vhdr.Header, subj, nw int, R uint64, forged
 	}
 	rel := func(h uint64) uint64 { return h - base } // (wraps for requests below the chain: they show up as huge numbers)
 	reqs := heightsOf(g.take(), "H:")
+	if res == "nonterminating" && len(reqs) > 300 {
+		reqs = reqs[:300] // (a spinning descent: the verdict says it all)
+	}
 	for i := range reqs {
 		reqs[i] = rel(reqs[i])
 	}
@@ -143,6 +150,10 @@ func runC15(tier string, r *rng) {
 				c15Case(chain, 3, 3+d, R, forged, -1)
 			}
 		}
+	}
+	// the getter has nothing at all: ErrNotFound for every intermediate
+	for _, dr := range [][2]int{{9, 1}, {17, 3}, {40, 7}, {2, 1}} {
+		c15Case(chain, 3, 3+dr[0], uint64(dr[1]), false, -2)
 	}
 	// getter failures: for sampled (d, R) fail each height in turn
 	for _, dr := range [][2]int{{9, 1}, {9, 2}, {17, 3}, {24, 5}, {40, 7}} {
